@@ -375,6 +375,9 @@ class Engine:
                 if lifted is None and a.t == STR and isinstance(b.obj, str):
                     lifted = V(STR, z3.StringVal(b.obj))
                 if lifted is None:
+                    hook = getattr(self.world, 'coerce_hook', None)
+                    lifted = hook(self, b, a.t, node) if hook is not None else None      # e.g. a module-level IR constant
+                if lifted is None:
                     raise Unsupported(f'cannot relate {a.t.name} with constant {b.obj!r}', node)
                 return a, lifted
             raise Unsupported('comparison of object with constant', node)
@@ -1070,12 +1073,13 @@ class Engine:
             outs0 = outs0 + self.flush_raises(st)
             itv = V(itv.t.inner, itv.t.val(itv.term))
         var = s.target.id if isinstance(s.target, ast.Name) else None
-        elem_map = None
+        elem_map = elem_facts = None
         if isinstance(itv, VPy) and isinstance(itv.obj, tuple) and itv.obj and itv.obj[0] == 'finditer':
             from .rx_rules import MATCH
             _, pid_, subj_, starts_ = itv.obj
             itv = starts_
             elem_map = lambda pos: V(MATCH, MATCH._dt.mk_Match(z3.IntVal(pid_), subj_.term, pos))     # noqa: E731
+            elem_facts = lambda pos: self.world.rx.match_facts(pid_, self.world.rx.by_id[pid_][1], subj_.term, pos)     # noqa: E731
         if isinstance(s.target, ast.Name) and isinstance(s.iter, ast.Name):
             k_, spec_ = self.loop_spec(s, var)
             if spec_.get('iter_text'):
@@ -1125,6 +1129,8 @@ class Engine:
             sb.pc.append(z3.And(seq.term[i] >= 0, seq.term[i] <= 0x10FFFF))
         if elem_map is not None:
             elem = elem_map(seq.term[i])
+            for f_ in elem_facts(seq.term[i]):
+                sb.pc.append(f_)          # each element finditer yields is a match of its pattern at its start offset
         if enum:
             self.assign(s.target.elts[0], V(INT, i), sb)
             self.assign(s.target.elts[1], elem, sb)
